@@ -424,3 +424,58 @@ func VH_C13_Fault() {
 		vReach("fault/not-hit")
 	}
 }
+
+// VH_C13_ManyChunks: the exported ChunkWriter with CHUNKS one-byte chunks (more than one branch
+// node can hold), two shared resources and a symbolic resource choice for the chunks around
+// the branch-node boundaries: the two-level index must pass the walker, and every leaf must
+// reach exactly the resources its frame names.
+func VH_C13_ManyChunks() {
+	n := vParam("CHUNKS")
+	faults := &vhFaults{}
+	sink := &vhSink{f: faults}
+	cw := &ChunkWriter{Writer: sink, CPageSize: uint64(vParam("PAGE"))}
+	if vParam("ILA") == 1 {
+		cw.IndexLocation = IndexLocationAtStart
+		cw.TempFile = &vhTemp{f: faults}
+	}
+	resources := [][]byte{{0xA0, 0x5A, 0}, {0xA1, 0x5A, 1}}
+	var ids [2]OptResource
+	for i := range resources {
+		id, err := cw.AddResource(resources[i])
+		vCheck(err == nil, "many/add-resource-error")
+		ids[i] = id
+	}
+	payload := make([]byte, n)
+	for i := 0; i < n; i++ {
+		payload[i] = byte(i%250) + 1
+		s, t := -1, -1
+		if i == 3 || (i >= 253 && i <= 255) {
+			c := vInt("res2")
+			vAssume(vAnd(c >= -1, c <= 1))
+			s = vConc(c)
+			if i == 254 {
+				c := vInt("res3")
+				vAssume(vAnd(c >= -1, c <= 1))
+				t = vConc(c)
+			}
+		}
+		var sec, ter OptResource
+		if s >= 0 {
+			sec = ids[s]
+		}
+		if t >= 0 {
+			ter = ids[t]
+		}
+		primary := []byte{1, byte(s + 1), byte(t + 1), payload[i]}
+		vCheck(cw.AddChunk(1, vhCodec, primary, sec, ter) == nil, "many/add-chunk-error")
+	}
+	vCheck(cw.Close() == nil, "many/close-error")
+	res := vhWalkFile(sink.data)
+	vCheck(res.why == "", "many/passes-the-specification-walker")
+	if res.why == "" {
+		vCheck(len(res.leaves) == n, "many/leaf-count")
+		vCheck(res.nodes >= 3, "many/index-has-two-levels")
+		vhCheckFile(sink.data, payload, resources)
+	}
+	vReach("many/done")
+}
